@@ -90,6 +90,25 @@ CHECKS.update({
    note="Only the documented syntactic forms are generated."),
 })
 
+# additions of rounds 9 and 10 (appended to the texts above)
+EXTRA = {
+ "C01": "Also 26 lengths x 14 layouts spelled by hand with one to three leading zero digits (legal ArrayLength types no typenum alias produces), and random leading zeros in the digit strings.",
+ "C02": "Zero-sized slices additionally with N + 2^k elements (k = 8, 16, 31, 32, 33, 48, 63; a comparison in a narrower integer type accepts them); the quick Miri stage replays the whole directed subset (348 cases), which now contains too-short sources ending at their allocation's end (a reference manufactured before the length check is a dangling reference there).",
+ "C04": "Seven further zip forms in which one or both operands are a caller-defined GenericSequence type whose by-value iterator is a crash point in every next().",
+ "C05": "Also serde deserialisation from a hint-less sequence source that ends early, is too long or fails at element c, and six wrong-length conversions to Box<GenericArray> (try_from_vec, try_from_boxed_slice, TryFrom<Box<[T]>>, spare capacity): error-return paths that release elements while not unwinding.",
+ "C06": "For the element kind with an observable Clone the order of T::clone calls made by the iterator's Clone is compared with the native array iterator's (front to back).",
+ "C07": "Both boxed targets also for N = 2^48 one-byte elements (cannot be allocated) from eleven size_hint behaviours that rule the length out: LengthError / the documented panic must come back without an allocation attempt.",
+ "C08": "All operations again on seven lengths spelled by hand with leading zero digits, for u32, drop-tracked and zero-sized elements.",
+ "C10": "Zero-sized slices of eight lengths no allocation could have (isize::MAX .. usize::MAX, N*2^48+1, ...) through chunks_from_slice(_mut), slice_from_chunks, into_chunks and from_chunks.",
+ "C15": "Vec<()> / Box<[()]> of N + 2^16 .. 2^48, usize::MAX and isize::MAX + 1 + N elements through the four fallible conversions.",
+ "C16": "A child that returns normally (Ok or Err) after one of its allocation requests was answered with null is a violation (previously read as 'failure index beyond the last allocation').",
+ "C17": "A deserializer that answers deserialize_tuple(N) through visit_bytes / visit_byte_buf / visit_borrowed_bytes / visit_str / visit_string / an empty visit_map / visit_unit with every count 0..=N+2: an array may come back only for exactly N elements and must hold them.",
+ "C18": "Every const fn once more on a 2^20-element array (const_default as fn and as associated constant, from_array/into_array, from_slice forms, from_mut_slice, chunks and back, uninit/assume_init): a per-element cost trips the deny-by-default long_running_const_eval lint.",
+ "C20": "List forms whose elements carry attributes: kept elements (#[cfg(all())], #[allow(..)]) in both macros, an element removed by #[cfg(any())] in arr! (must equal the shorter native literal); the box_arr! twin of the latter is the directed case of the one open entry in known_findings.json (DESIGN.md 10.1) and is compiled as a program of its own.",
+}
+for _k, _v in EXTRA.items():
+    CHECKS[_k]["text"] += " " + _v
+
 def main():
     props = [json.loads(l) for l in open(os.path.join(ROOT, "properties.jsonl"))]
     checks = []
@@ -128,7 +147,7 @@ def main():
         ],
         "checks": checks,
         "not_applicable": na,
-        "notes": "All checks: ./check <ID> --tier quick|thorough, honour VERIF_SEED, exit 0/1/2 (2 = infrastructure, never a verdict). Genuine defects found and repaired are listed in known_findings.json as fixed entries.",
+        "notes": "All checks: ./check <ID> --tier quick|thorough, honour VERIF_SEED, exit 0/1/2 (2 = infrastructure, never a verdict). Genuine defects found and repaired are listed in known_findings.json as fixed entries; one defect is recorded as open (box_arr! with a cfg-removed list element, DESIGN.md 10.1): C20 prints a KNOWN-FINDING line for it and exits 0.",
     }
     json.dump(m, open(os.path.join(ROOT, "MANIFEST.json"), "w"), indent=1)
     print("checks:", len(checks), "not_applicable:", len(na))
